@@ -97,6 +97,7 @@ class FnLower:
     def lower_fn(self, fn):
         L = self.L
         self.fn = fn
+        L.cur_fn = fn
         kind = fn['kind']
         L.stats['functions'].append({'name': fn.get('name'), 'mangled': fn.get('mangledName'), 'line': fn.get('loc', {}).get('line') or fn.get('loc', {}).get('expansionLoc', {}).get('line')})
         sig = L.signature(fn)
@@ -772,6 +773,15 @@ class FnLower:
         fn = L.need_fn(decl['id'])
         return self.finish_call('%s(%s)' % (fn, ', '.join(ca)), ret_t, returns_ref, L.fn_may_throw(decl), want_value)
 
+    def all_call_operators(self, rec):
+        """operator() methods of a closure/functor record, including instantiations of a generic lambda's template"""
+        out = []
+        for m in rec.get('inner', []):
+            if m.get('kind') == 'CXXMethodDecl' and m.get('name') == 'operator()': out.append(m)
+            if m.get('kind') == 'FunctionTemplateDecl' and m.get('name') == 'operator()':
+                out += [x for x in m.get('inner', []) if x.get('kind') == 'CXXMethodDecl' and any(a.get('kind') == 'TemplateArgument' for a in x.get('inner', []))]
+        return out
+
     def is_devirtualized(self, member_expr, decl):
         # a qualified call (X::f()) suppresses dynamic dispatch; clang's JSON does not expose the
         # qualifier, and trompeloeil has no such call of a virtual function: keep dynamic dispatch.
@@ -844,7 +854,7 @@ class FnLower:
         if name == 'for_each' and len(args) == 3:
             t0 = L.deref_t(args[0]['type']); t2 = L.deref_t(args[2]['type'])
             if t0[0] == 'ptr' and t2[0] == 'rec':
-                op = [m for m in self.idx.methods(t2[1]) if m.get('name') == 'operator()' and self.idx.defn.get(m['id']) is not None]
+                op = [m for m in self.all_call_operators(t2[1]) if self.idx.defn.get(m['id']) is not None]
                 if len(op) != 1: self.unsupported('std::for_each functor without a unique operator()')
                 a, b = self.operands([('rv', args[0]), ('rv', args[1])])
                 cl = self.rv(args[2])
@@ -861,6 +871,40 @@ class FnLower:
                 self.emit('  ++%s;' % it); self.emit('}')
                 self.loops_closed += 1
                 return cl, False
+        if name in ('begin', 'end', 'cbegin', 'cend') and len(args) == 1:
+            at = L.deref_t(args[0]['type'])
+            if at[0] == 'array':
+                base = self.addr(args[0])
+                return '(&(%s)->a[%d])' % (base, 0 if 'begin' in name else at[2]), False
+        if name in ('all_of', 'any_of', 'none_of') and len(args) == 3:
+            t0 = L.deref_t(args[0]['type']); t2 = L.deref_t(args[2]['type'])
+            if t0[0] == 'ptr' and t2[0] == 'rec':
+                ops = [m for m in self.all_call_operators(t2[1]) if self.idx.defn.get(m['id']) is not None]
+                if len(ops) != 1: self.unsupported('std::%s functor without a unique instantiated operator()' % name)
+                a, b = self.operands([('rv', args[0]), ('rv', args[1])])
+                cl = self.rv(args[2])
+                if not SIMPLE_RE.match(cl): x = self.tmp(); self.emit('%s %s = %s;' % (L.ctype_of(t2), x, cl)); cl = x
+                it = self.tmp('_it'); ct = L.ctype_of(t0); res = self.tmp('_alg')
+                self.emit('%s %s = %s; %s %s_end = %s; _Bool %s = %s;' % (ct, it, a, ct, it, b, res, '0' if name == 'any_of' else '1'))
+                fn = L.need_fn(ops[0]['id'])
+                prm = [p for p in ops[0].get('inner', []) if p.get('kind') == 'ParmVarDecl'][0]
+                argx = it if L.is_ref(prm['type']) else '(%s)(*%s)' % (L.ctype(prm['type']), it)
+                self.emit('while (%s != %s_end) { /* std::%s: stops at the first element that decides */' % (it, it, name))
+                self.emit('  _Bool _p = %s(&%s, %s);' % (fn, cl, argx))
+                if L.fn_may_throw(ops[0]):
+                    self.ind += 1; self.check(); self.ind -= 1
+                if name == 'all_of': self.emit('  if (!_p) { %s = 0; break; }' % res)
+                elif name == 'any_of': self.emit('  if (_p) { %s = 1; break; }' % res)
+                else: self.emit('  if (_p) { %s = 0; break; }' % res)
+                self.emit('  ++%s;' % it); self.emit('}')
+                self.loops_closed += 1
+                return res, False
+        if name == 'distance' and len(args) == 2 and L.deref_t(args[0]['type'])[0] == 'ptr':
+            a, b = self.operands([('rv', args[0]), ('rv', args[1])])
+            return '(%s - %s)' % (b, a), False
+        if name == 'advance' and len(args) == 2 and L.deref_t(args[0]['type'])[0] == 'ptr':
+            a, b = self.operands([('lv', args[0]), ('rv', args[1])])
+            self.emit('%s = %s + (%s);' % (a, a, b)); return '', False
         if name in ('abort', 'terminate'):
             self.emit('vp_abort();'); return '', False
         if name == 'get' and len(args) == 1:
@@ -1130,7 +1174,10 @@ class FnLower:
                 if k == 'CXXConstCastExpr' or ck == 'NoOp' and L.tinfo(e['type'])[0] == 'ptr':
                     return '((%s)%s)' % (L.ctype(e['type']), self.rv(x))
                 return self.rv(x)
-            if ck == 'ArrayToPointerDecay': return self.lv(x)
+            if ck == 'ArrayToPointerDecay':
+                x0 = self.strip_casts(x)
+                if x0.get('kind') in ('StringLiteral', 'MemberExpr'): return self.lv(x)     # literals and array FIELDS are native C arrays
+                return '(%s).a' % self.lv(x)                                                  # other array objects are wrapped (struct vp_carr_*)
             if ck == 'FunctionToPointerDecay': return self.addr(x)
             if ck == 'NullToPointer': return '((%s)0)' % L.ctype(e['type'])
             if ck in ('IntegralCast', 'IntegralToBoolean', 'PointerToBoolean', 'BitCast', 'IntegralToPointer', 'PointerToIntegral', 'BooleanToSignedIntegral', 'IntegralToFloating', 'FloatingToIntegral'):
@@ -1163,7 +1210,20 @@ class FnLower:
             return self.materialize(e, t)
         if k == 'CXXThisExpr': return 'self'
         if k == 'CXXNoexceptExpr': return '1' if e.get('value') else '0'
-        if k == 'SizeOfPackExpr': self.unsupported('sizeof... without value')
+        if k == 'SizeOfPackExpr':
+            # the size of a pack in this instantiation: the pack-kind TemplateArgument of the function (or of its class)
+            packs = []
+            n = self.fn
+            while n is not None and not packs:
+                for a in n.get('inner', []):
+                    if a.get('kind') == 'TemplateArgument' and ('inner' in a and all(x.get('kind') == 'TemplateArgument' for x in a['inner']) and not ('type' in a or 'value' in a)):
+                        packs.append(len(a['inner']))
+                n = self.idx.parent.get(n['id']) if n.get('id') in self.idx.parent else None
+                if n is not None and n.get('kind') not in ('FunctionTemplateDecl', 'ClassTemplateSpecializationDecl', 'CXXRecordDecl'): break
+            if len(packs) == 1: return '%dUL' % packs[0]
+            ps = [c for c in self.fn.get('inner', []) if c.get('kind') == 'ParmVarDecl' and c.get('name') == e.get('name')]
+            if ps: return '%dUL' % len(ps)
+            self.unsupported('sizeof...(%s): pack size not determined' % e.get('name'))
         if k == 'UnaryExprOrTypeTraitExpr':
             if e.get('name') == 'sizeof' and 'argType' in e: return 'sizeof(%s)' % L.ctype(e['argType'])
             self.unsupported('trait ' + str(e.get('name')))
